@@ -13,6 +13,10 @@ pub struct Digest {
     pub full: String,
     /// accepted or rejected, and the tree/text only (no error payload): what C17 compares
     pub accept_hash: u64,
+    /// preprocessed text of an Ok result
+    pub text: Option<String>,
+    /// rendered error of an Err result
+    pub err: Option<String>,
 }
 
 impl Digest {
@@ -22,6 +26,8 @@ impl Digest {
             hash: fnv(full.as_bytes()),
             accept_hash: fnv(accept_part.as_bytes()),
             full,
+            text: None,
+            err: None,
         }
     }
     pub fn short(&self) -> String {
@@ -92,7 +98,9 @@ pub fn unwrap_includes(e: &Error) -> (usize, &Error) {
 pub fn digest_err(e: &Error) -> Digest {
     let s = err_string(e);
     let kind = format!("Err:{}", err_variant(e));
-    Digest::from_full(&kind, format!("ERR {}\n", s), "REJECT")
+    let mut d = Digest::from_full(&kind, format!("ERR {}\n", s), "REJECT");
+    d.err = Some(s);
+    d
 }
 
 fn write_defines(out: &mut String, defines: &Defines) {
@@ -159,7 +167,9 @@ pub fn digest_pp(r: &Result<(PreprocessedText, Defines), Error>) -> Digest {
             write_text_and_origins(&mut out, text);
             let accept = format!("ACCEPT {:?}", text.text());
             write_defines(&mut out, defines);
-            Digest::from_full("Ok", out, &accept)
+            let mut d = Digest::from_full("Ok", out, &accept);
+            d.text = Some(text.text().to_string());
+            d
         }
     }
 }
@@ -218,7 +228,9 @@ pub fn digest_tree(r: &Result<(SyntaxTree, Defines), Error>) -> Digest {
             }
             let accept = format!("ACCEPT {:?}\n{}", text, nodes);
             write_defines(&mut out, defines);
-            Digest::from_full("Ok", out, &accept)
+            let mut d = Digest::from_full("Ok", out, &accept);
+            d.text = Some(text.to_string());
+            d
         }
     }
 }
